@@ -47,9 +47,10 @@ theorem refs_kids (n : Node) {r : Ref} (h : r ∈ refsList n.kids) : r ∈ n.ref
 
 theorem Loaded.mono {inp : Input} {pre pre' : List Url} {d : Option Url}
     (h : Loaded inp pre d) (hs : ∀ u ∈ pre, u ∈ pre') : Loaded inp pre' d := by
-  rcases h with h | ⟨u, hu, hd⟩
+  rcases h with h | ⟨u, hu, hd⟩ | h
   · exact Or.inl h
-  · exact Or.inr ⟨u, hs u hu, hd⟩
+  · exact Or.inr (Or.inl ⟨u, hs u hu, hd⟩)
+  · exact Or.inr (Or.inr h)
 
 theorem Justified.mono {inp : Input} {pre pre' : List Url} {u : Url}
     (h : Justified inp pre u) (hs : ∀ u ∈ pre, u ∈ pre') : Justified inp pre' u := by
@@ -217,10 +218,28 @@ def LoadedU (inp : Input) (log : List Url) (d : Option Url) : Prop := Loaded inp
 theorem LoadedU.mono {inp : Input} {pre pre' : List Url} {d : Option Url}
     (h : LoadedU inp pre d) (hs : ∀ u ∈ pre, u ∈ pre') : LoadedU inp pre' d := ⟨h.1.mono hs, h.2⟩
 
-theorem LoadedU.here {inp : Input} {log : List Url} {u : Url} {f : File} (h : u ∈ log) (hs : storeAt inp u = some f) :
-    LoadedU inp log (some u) := ⟨Or.inr ⟨u, h, rfl⟩, storeAt_univ hs⟩
+/-- loaded IN THIS LOAD (the root, or read since the load began), and a location of the file universe: what the
+    current `documentPath` / `doc` always are -/
+def LoadedN (inp : Input) (log : List Url) (d : Option Url) : Prop :=
+  (d = inp.root ∨ ∃ u ∈ log, d = some u) ∧ d ∈ univ inp
 
-theorem LoadedU.root {inp : Input} {log : List Url} {d : Option Url} (h : d = inp.root) : LoadedU inp log d :=
+theorem LoadedN.toU {inp : Input} {log : List Url} {d : Option Url} (h : LoadedN inp log d) : LoadedU inp log d := by
+  refine ⟨?_, h.2⟩
+  rcases h.1 with e | e
+  · exact Or.inl e
+  · exact Or.inr (Or.inl e)
+
+theorem LoadedN.mono {inp : Input} {pre pre' : List Url} {d : Option Url}
+    (h : LoadedN inp pre d) (hs : ∀ u ∈ pre, u ∈ pre') : LoadedN inp pre' d := by
+  refine ⟨?_, h.2⟩
+  rcases h.1 with e | ⟨u, hu, hd⟩
+  · exact Or.inl e
+  · exact Or.inr ⟨u, hs u hu, hd⟩
+
+theorem LoadedN.here {inp : Input} {log : List Url} {u : Url} {f : File} (h : u ∈ log) (hs : storeAt inp u = some f) :
+    LoadedN inp log (some u) := ⟨Or.inr ⟨u, h, rfl⟩, storeAt_univ hs⟩
+
+theorem LoadedN.root {inp : Input} {log : List Url} {d : Option Url} (h : d = inp.root) : LoadedN inp log d :=
   ⟨Or.inl h, by unfold univ; rw [h]; simp⟩
 
 def NodeIn (inp : Input) (d : Option Url) (n : Node) : Prop := ∀ r ∈ n.refs, r ∈ refsAt inp d
@@ -256,6 +275,15 @@ theorem KidsIn.elem {inp : Input} {u : Url} {f : File} (k : Kind) (h : storeAt i
   split at hr
   · next ks hks => simp [refsViews_mem hks hr]
   · simp [refsList] at hr
+
+theorem NodeIn.self {inp : Input} {u : Url} {f : File} (h : storeAt inp u = some f) :
+    NodeIn inp (some u) (.mk 0 .pathItem f.selfRef []) := by
+  intro r hr
+  rw [refsAt_of_docAt (storeAt_docAt h)]
+  unfold File.refs
+  rw [Node.refs] at hr
+  simp only [refsList, List.append_nil] at hr
+  simp [hr]
 
 theorem KidsIn.tops {inp : Input} {u : Url} {f : File} (h : storeAt inp u = some f) : KidsIn inp (some u) f.tops := by
   intro r hr
@@ -312,7 +340,7 @@ theorem Ext.trans {a b c : St} (h1 : Ext a b) (h2 : Ext b c) : Ext a c := fun u 
 
 theorem Inv.tick {inp : Input} {st : St} (n : Nat) (h : Inv inp st) : Inv inp (tick n st) := ⟨h.marks, h.just, h.off, h.nfo, h.uni⟩
 theorem Inv.oof {inp : Input} {st : St} (h : Inv inp st) : Inv inp { st with oof := true } := ⟨h.marks, h.just, h.off, h.nfo, h.uni⟩
-theorem Inv.inprog {inp : Input} {st : St} (l : List String) (h : Inv inp st) : Inv inp { st with inprog := l } :=
+theorem Inv.inprog {inp : Input} {st : St} (l : List (Kind × String)) (h : Inv inp st) : Inv inp { st with inprog := l } :=
   ⟨h.marks, h.just, h.off, h.nfo, h.uni⟩
 theorem Inv.docs {inp : Input} {st : St} (l : List Url) (h : Inv inp st) : Inv inp { st with docs := l } :=
   ⟨h.marks, h.just, h.off, h.nfo, h.uni⟩
@@ -369,7 +397,8 @@ theorem Inv.logRead {inp : Input} {st : St} (al : Bool) (u : Url) (h : Inv inp s
     exact ⟨h.uni hU, hu hU⟩
 
 /-- the raw re-read of the current document is a read of a loaded location -/
-theorem Inv.reread {inp : Input} {st : St} (p : Url) (h : Inv inp st) (hl : Loaded inp st.log (some p)) :
+theorem Inv.reread {inp : Input} {st : St} (p : Url) (h : Inv inp st)
+    (hl : some p = inp.root ∨ ∃ u ∈ st.log, some p = some u) :
     Inv inp (KinModel.Reads.logRead true p st) := by
   apply h.logRead
   · intro hf _
@@ -389,17 +418,20 @@ theorem Ext.logRead (al : Bool) (u : Url) (st : St) : Ext st (logRead al u st) :
 theorem Loaded.ext {inp : Input} {st st' : St} {d : Option Url} (h : Loaded inp st.log d) (e : Ext st st') :
     Loaded inp st'.log d := h.mono e
 
+theorem LoadedN.ext {inp : Input} {st st' : St} {d : Option Url} (h : LoadedN inp st.log d) (e : Ext st st') :
+    LoadedN inp st'.log d := h.mono e
+
 theorem LoadedU.ext {inp : Input} {st st' : St} {d : Option Url} (h : LoadedU inp st.log d) (e : Ext st st') :
     LoadedU inp st'.log d := h.mono e
 
 theorem Loaded.here {inp : Input} {log : List Url} {u : Url} (h : u ∈ log) : Loaded inp log (some u) :=
-  Or.inr ⟨u, h, rfl⟩
+  Or.inr (Or.inl ⟨u, h, rfl⟩)
 
 /-! ### the walkers preserve the invariant -/
 
 structure Ctx (inp : Input) (st : St) (cx : Cx) (home : Home) : Prop where
-  path : LoadedU inp st.log cx.path
-  doc : LoadedU inp st.log cx.doc
+  path : LoadedN inp st.log cx.path
+  doc : LoadedN inp st.log cx.doc
   home : LoadedU inp st.log home.1
 
 theorem Ctx.ext {inp : Input} {st st' : St} {cx : Cx} {home : Home} (h : Ctx inp st cx home) (e : Ext st st') :
@@ -440,10 +472,10 @@ theorem guarded_read_justified {inp : Input} {st : St} {cx : Cx} {home : Home} {
     exact decide_eq_true (hU home.1 hh.2 r hr hf cx.path hp)
 
 theorem drill_post {inp : Input} {st : St} {cdoc cpath : Option Url} (frag : String) (kind : Kind)
-    (hI : Inv inp st) (hp : LoadedU inp st.log cpath) (hd : LoadedU inp st.log cdoc) :
+    (hI : Inv inp st) (hp : LoadedN inp st.log cpath) (hd : LoadedN inp st.log cdoc) :
     Inv inp (drill inp cdoc cpath frag kind st).1 ∧ Ext st (drill inp cdoc cpath frag kind st).1 ∧
     ∀ thome t, (drill inp cdoc cpath frag kind st).2 = some (thome, t) →
-      LoadedU inp (drill inp cdoc cpath frag kind st).1.log thome.1 ∧ NodeIn inp thome.1 t := by
+      LoadedN inp (drill inp cdoc cpath frag kind st).1.log thome.1 ∧ NodeIn inp thome.1 t := by
   unfold drill
   split
   · next t ht =>
@@ -462,7 +494,7 @@ theorem drill_post {inp : Input} {st : St} {cdoc cpath : Option Url} (frag : Str
   · split
     · exact ⟨hI.tick 17, Ext.refl st, by intro _ _ h; cases h⟩
     · next p =>
-      have hlp : LoadedU inp st.log (some p) := hp
+      have hlp : LoadedN inp st.log (some p) := hp
       have hrr := hI.reread p hlp.1
       split
       · exact ⟨hrr.tick 12, Ext.logRead true p st, by intro _ _ h; cases h⟩
@@ -476,7 +508,7 @@ theorem drill_post {inp : Input} {st : St} {cdoc cpath : Option Url} (frag : Str
             simp only [Option.some.injEq, Prod.mk.injEq] at h
             obtain ⟨h1, h2⟩ := h
             subst h1; subst h2
-            exact ⟨LoadedU.here (by simp) hfile, NodeIn.raw hfile ht⟩
+            exact ⟨LoadedN.here (by simp) hfile, NodeIn.raw hfile ht⟩
         · exact ⟨hrr.tick 13, Ext.logRead true p st, by intro _ _ h; cases h⟩
 
 theorem okRes_val {ok : Bool} {v w : Val} (h : okRes ok v = Res.ok (some w)) : w = v := by
@@ -489,7 +521,7 @@ def PResolve (inp : Input) (f : Nat) : Prop :=
     PostR inp st (resolve inp f cx home copy n st)
 def PFrag (inp : Input) (f : Nat) : Prop :=
   ∀ cx home copy id kind r cdoc cpath st, Inv inp st → Ctx inp st cx home →
-    LoadedU inp st.log cdoc → LoadedU inp st.log cpath →
+    LoadedN inp st.log cdoc → LoadedN inp st.log cpath →
     PostR inp st (fragStep inp f cx home copy id kind r cdoc cpath st)
 def PWalk (inp : Input) (f : Nat) : Prop :=
   ∀ cx home ks st, Inv inp st → Ctx inp st cx home → KidsIn inp home.1 ks →
@@ -498,7 +530,7 @@ def PLoad (inp : Input) (f : Nat) : Prop :=
   ∀ al u st, Inv inp st → (st.foreign = false → al = true → Justified inp st.log u) →
     (inp.allowed = false → some u = inp.root ∧ al = true) → (Uniform inp → al = true) →
     PostB inp st (loadDoc inp f al u st) ∧
-      ((loadDoc inp f al u st).2 = true → LoadedU inp (loadDoc inp f al u st).1.log (some u))
+      ((loadDoc inp f al u st).2 = true → LoadedN inp (loadDoc inp f al u st).1.log (some u))
 
 theorem walk_step {inp : Input} {f : Nat} (ihR : PResolve inp f) (ihW : PWalk inp f) : PWalk inp (f + 1) := by
   intro cx home ks st hI hC hk
@@ -523,12 +555,12 @@ theorem load_step {inp : Input} {f : Nat} (ihW : PWalk inp f) : PLoad inp (f + 1
   split
   · exact ⟨⟨hrd.tick 12, he⟩, fun h => by cases h⟩
   · next file hfile =>
-    have hl : LoadedU inp (logRead al u st).log (some u) := LoadedU.here hu hfile
+    have hl : LoadedN inp (logRead al u st).log (some u) := LoadedN.here hu hfile
     split
     · exact ⟨⟨hrd.tick 6, he⟩, fun _ => by simpa using hl⟩
     · split
       · have hw := ihW ⟨some u, some u⟩ (some u, 0) file.tops { (logRead al u st) with docs := u :: st.docs }
-          (hrd.docs _) ⟨hl, hl, hl⟩ (KidsIn.tops hfile)
+          (hrd.docs _) ⟨hl, hl, hl.toU⟩ (KidsIn.tops hfile)
         exact ⟨⟨hw.1, he.trans hw.2⟩, fun _ => hl.mono hw.2⟩
       · exact ⟨⟨(hrd.docs _).tick 13, he⟩, fun h => by cases h⟩
 
@@ -537,7 +569,7 @@ theorem load_step {inp : Input} {f : Nat} (ihW : PWalk inp f) : PLoad inp (f + 1
 theorem walk_mark_unvisit {inp : Input} {f : Nat} (ihW : PWalk inp f) {st st2 : St} (wcx : Cx) (key : Key)
     (copy : Bool) (text : String) (kind : Kind) (val : Val)
     (hI2 : Inv inp st2) (he : Ext st st2) (hv : ValOK inp st2.log val)
-    (hp : LoadedU inp st2.log wcx.path) (hd : LoadedU inp st2.log wcx.doc) :
+    (hp : LoadedN inp st2.log wcx.path) (hd : LoadedN inp st2.log wcx.doc) :
     PostR inp st
       (match walk inp f wcx val.1 val.2 (setMark copy key val st2) with
        | (st3, ok) => (unvisit text kind (some val) st3, okRes ok val)) := by
@@ -565,11 +597,11 @@ theorem frag_step {inp : Input} {f : Nat} (ihR : PResolve inp f) (ihW : PWalk in
       obtain ⟨hlt, hnt⟩ := ht thome t rfl
       simp only at hI1 he1 hlt
       -- the recursive call on the copy, with (componentDoc, componentPath)
-      have hr := ihR ⟨cdoc, cpath⟩ thome true t st1 hI1 ⟨hcp.ext he1, hcd.ext he1, hlt⟩ hnt
+      have hr := ihR ⟨cdoc, cpath⟩ thome true t st1 hI1 ⟨hcp.ext he1, hcd.ext he1, hlt.toU⟩ hnt
       split
       · -- path item: (doc, documentPath) are re-assigned
         split
-        · have hv : ValOK inp st1.log (thome, t.kids) := ⟨hlt, hnt.kids⟩
+        · have hv : ValOK inp st1.log (thome, t.kids) := ⟨hlt.toU, hnt.kids⟩
           exact walk_mark_unvisit ihW ⟨cdoc, cpath⟩ (home, id) copy r.text kind (thome, t.kids)
             (hI1.tick 10) (by intro x hx; simpa using he1 x hx) (by simpa using hv)
             (by simpa using hcp.ext he1) (by simpa using hcd.ext he1)
@@ -603,8 +635,8 @@ theorem frag_step {inp : Input} {f : Nat} (ihR : PResolve inp f) (ihW : PWalk in
           exact walk_mark_unvisit ihW cx (home, id) copy r.text kind val hI2 he02 hv
             (hC.path.ext he02) (hC.doc.ext he02)
 
-theorem resolve_step {inp : Input} {f : Nat} (ihF : PFrag inp f) (ihW : PWalk inp f) (ihL : PLoad inp f) :
-    PResolve inp (f + 1) := by
+theorem resolve_step {inp : Input} {f : Nat} (ihR : PResolve inp f) (ihF : PFrag inp f) (ihW : PWalk inp f)
+    (ihL : PLoad inp f) : PResolve inp (f + 1) := by
   intro cx home copy n st hI hC hn
   cases n with
   | mk id kind ref kids =>
@@ -628,40 +660,63 @@ theorem resolve_step {inp : Input} {f : Nat} (ihF : PFrag inp f) (ihW : PWalk in
       exact hI.marks _ (mem_assoc hv)
     · split
       · exact ⟨(hI.addPend copy r.text kind (home, id)).tick 2, by intro x hx; simpa using hx, by intro _ h; cases h⟩
-      · have hI0 : Inv inp { st with inprog := r.text :: st.inprog } := hI.inprog _
+      · have hI0 : Inv inp { st with inprog := (kind, r.text) :: st.inprog } := hI.inprog _
         split
         · -- .whole: loadSingleElementFromURI
           next hform =>
           split
           · exact ⟨hI0.tick 3, Ext.refl st, by intro _ h; cases h⟩
           · next u al hg =>
-            have hj := guarded_read_justified (st := { st with inprog := r.text :: st.inprog }) hg hC.home hC.path.2 hrin
+            have hj := guarded_read_justified (st := { st with inprog := (kind, r.text) :: st.inprog }) hg hC.home hC.path.2 hrin
               (by rw [hform]; decide)
             have hrd := hI0.logRead al u hj.1 hj.2.1 hj.2.2
-            have he : Ext st (logRead al u { st with inprog := r.text :: st.inprog }) := by
+            have he : Ext st (logRead al u { st with inprog := (kind, r.text) :: st.inprog }) := by
               intro x hx; simp [hx]
-            have hu : u ∈ (logRead al u { st with inprog := r.text :: st.inprog }).log := by simp
+            have hu : u ∈ (logRead al u { st with inprog := (kind, r.text) :: st.inprog }).log := by simp
             split
             · exact ⟨hrd.tick 12, he, by intro _ h; cases h⟩
             · next file hfile =>
-              have hl : LoadedU inp (logRead al u { st with inprog := r.text :: st.inprog }).log (some u) :=
-                LoadedU.here hu hfile
+              have hl : LoadedN inp (logRead al u { st with inprog := (kind, r.text) :: st.inprog }).log (some u) :=
+                LoadedN.here hu hfile
               split
               · split
                 · exact ⟨hrd.tick 22, he, by intro _ h; cases h⟩
                 split
+                · -- the file is itself a reference (path item): resolve it as a copy with the file's location
+                  have he4 : Ext st (tick 24 (logRead al u { st with inprog := (kind, r.text) :: st.inprog })) := by
+                    intro x hx; simpa using he x hx
+                  have hr := ihR ⟨cx.doc, some u⟩ (some u, st.gen + 1) true (.mk 0 .pathItem file.selfRef [])
+                    (tick 24 (logRead al u { st with inprog := (kind, r.text) :: st.inprog })) (hrd.tick 24)
+                    ⟨by simpa using hl, by simpa using (hC.ext he).doc, by simpa using hl.toU⟩ (NodeIn.self hfile)
+                  split
+                  · next st1 heq => rw [heq] at hr; exact ⟨hr.1, he4.trans hr.2.1, by intro _ h; cases h⟩
+                  · next st1 heq =>
+                    rw [heq] at hr
+                    refine ⟨(hr.1.unvisit _ _ none (by intro _ h; cases h)).tick 25, ?_, by intro _ h; cases h⟩
+                    intro x hx; simpa using hr.2.1 x (he4 x hx)
+                  · next st1 val heq =>
+                    rw [heq] at hr
+                    obtain ⟨hI1, he1, hv1⟩ := hr
+                    have hv : ValOK inp st1.log val := hv1 val rfl
+                    simp only at hI1 he1 hv
+                    have he01 : Ext st st1 := he4.trans he1
+                    have hl4 : LoadedN inp (tick 24 (logRead al u { st with inprog := (kind, r.text) :: st.inprog })).log (some u) := by
+                      simpa using hl
+                    exact walk_mark_unvisit ihW ⟨cx.doc, some u⟩ (home, id) copy r.text kind val hI1 he01 hv
+                      (hl4.ext he1) ((hC.ext he01).doc)
+                split
                 · exact ⟨(hrd.unvisit _ _ none (by intro _ h; cases h)).tick 23, by intro x hx; simpa using he x hx,
                     by intro _ h; cases h⟩
-                have hv : ValOK inp (logRead al u { st with inprog := r.text :: st.inprog }).log
-                    ((some u, st.log.length + 1), file.elemAs kind) := ⟨hl, KidsIn.elem kind hfile⟩
+                have hv : ValOK inp (logRead al u { st with inprog := (kind, r.text) :: st.inprog }).log
+                    ((some u, st.gen + 1), file.elemAs kind) := ⟨hl.toU, KidsIn.elem kind hfile⟩
                 exact walk_mark_unvisit ihW ⟨cx.doc, some u⟩ (home, id) copy r.text kind
-                  ((some u, st.log.length + 1), file.elemAs kind) (hrd.tick 4)
+                  ((some u, st.gen + 1), file.elemAs kind) (hrd.tick 4)
                   (by intro x hx; simpa using he x hx) (by simpa using hv)
                   (by simpa using hl) (by simpa using (hC.ext he).doc)
               · exact ⟨hrd.tick 13, he, by intro _ h; cases h⟩
         · -- .internal
           next hform =>
-          have hp := ihF cx home copy id kind r cx.doc cx.path { st with inprog := r.text :: st.inprog } hI0
+          have hp := ihF cx home copy id kind r cx.doc cx.path { st with inprog := (kind, r.text) :: st.inprog } hI0
             ⟨hC.path, hC.doc, hC.home⟩ hC.doc hC.path
           exact ⟨hp.1, hp.2.1, hp.2.2⟩
         · -- .fragment: resolveComponent through resolveRefAndDocument
@@ -669,9 +724,9 @@ theorem resolve_step {inp : Input} {f : Nat} (ihF : PFrag inp f) (ihW : PWalk in
           split
           · exact ⟨hI0.tick 3, Ext.refl st, by intro _ h; cases h⟩
           · next u al hg =>
-            have hj := guarded_read_justified (st := { st with inprog := r.text :: st.inprog }) hg hC.home hC.path.2 hrin
+            have hj := guarded_read_justified (st := { st with inprog := (kind, r.text) :: st.inprog }) hg hC.home hC.path.2 hrin
               (by rw [hform]; decide)
-            have hl := ihL al u { st with inprog := r.text :: st.inprog } hI0 hj.1 hj.2.1 hj.2.2
+            have hl := ihL al u { st with inprog := (kind, r.text) :: st.inprog } hI0 hj.1 hj.2.1 hj.2.2
             split
             · next st1 heq => rw [heq] at hl; exact ⟨hl.1.1, hl.1.2, by intro _ h; cases h⟩
             · next st1 heq =>
@@ -705,51 +760,159 @@ theorem all_steps (inp : Input) : ∀ f, PResolve inp f ∧ PFrag inp f ∧ PWal
       exact ⟨⟨hI.oof, Ext.refl st⟩, by intro h; cases h⟩
   | succ f ih =>
     obtain ⟨ihR, ihF, ihW, ihL⟩ := ih
-    exact ⟨resolve_step ihF ihW ihL, frag_step ihR ihW, walk_step ihR ihW, load_step ihW⟩
+    exact ⟨resolve_step ihR ihF ihW ihL, frag_step ihR ihW, walk_step ihR ihW, load_step ihW⟩
 
 theorem Inv.init (inp : Input) : Inv inp St.init := by
   refine ⟨?_, fun _ => AllJust.nil inp, ?_, fun _ => rfl, fun _ => rfl⟩
   · intro kv h; simp [St.init] at h
   · intro _ u h; simp [St.init] at h
 
-/-- the invariant holds of the final state of every entry point -/
-theorem load_inv (inp : Input) (fuel : Nat) : Inv inp (load inp fuel).1 := by
+/-- the invariant is preserved by every entry point, from any loader state that satisfies it -/
+theorem loadFrom_inv (inp : Input) (fuel : Nat) (st0 : St) (h0 : Inv inp st0) : Inv inp (loadFrom inp fuel st0).1 := by
   obtain ⟨_, _, hW, hL⟩ := all_steps inp fuel
-  unfold load
+  unfold loadFrom
   split
   · -- LoadFromFile / LoadFromURI
     next he =>
     split
-    · exact Inv.init inp
+    · exact h0
     · next u hu =>
       have hroot : some u = inp.root := by unfold Input.root; rw [he, hu]
-      exact (hL true u St.init (Inv.init inp) (fun _ _ => Or.inl hroot) (fun _ => ⟨hroot, rfl⟩) (fun _ => rfl)).1.1
+      exact (hL true u st0 h0 (fun _ _ => Or.inl hroot) (fun _ => ⟨hroot, rfl⟩) (fun _ => rfl)).1.1
   · -- LoadFromDataWithPath
     next he =>
     split
-    · exact Inv.init inp
+    · exact h0
     · next u hu =>
       have hroot : some u = inp.root := by unfold Input.root; rw [he, hu]
       split
-      · have hl : LoadedU inp ({ St.init with docs := [u] } : St).log (some u) := LoadedU.root hroot
-        next hparse =>
-        have hk : KidsIn inp (some u) inp.rootFile.tops := by
-          intro r hr
-          have : docAt inp (some u) = some inp.rootFile := by unfold docAt; simp [hroot]
-          rw [refsAt_of_docAt this]; unfold File.refs; simp [hr]
-        exact (hW ⟨some u, some u⟩ (some u, 0) inp.rootFile.tops { St.init with docs := [u] }
-          ((Inv.init inp).docs _) ⟨hl, hl, hl⟩ hk).1
-      · exact (Inv.init inp).docs _
+      · exact h0.tick 6
+      · split
+        · have hl : LoadedN inp ({ st0 with docs := u :: st0.docs } : St).log (some u) := LoadedN.root hroot
+          have hk : KidsIn inp (some u) inp.rootFile.tops := by
+            intro r hr
+            have : docAt inp (some u) = some inp.rootFile := by unfold docAt; simp [hroot]
+            rw [refsAt_of_docAt this]; unfold File.refs; simp [hr]
+          exact (hW ⟨some u, some u⟩ (some u, 0) inp.rootFile.tops { st0 with docs := u :: st0.docs }
+            (h0.docs _) ⟨hl, hl, hl.toU⟩ hk).1
+        · exact h0.docs _
   · -- LoadFromData
     next he =>
     have hroot : (none : Option Url) = inp.root := by unfold Input.root; rw [he]
     split
-    · have hl : LoadedU inp St.init.log none := LoadedU.root hroot
+    · have hl : LoadedN inp st0.log none := LoadedN.root hroot
       have hk : KidsIn inp none inp.rootFile.tops := by
         intro r hr
         have : docAt inp none = some inp.rootFile := by unfold docAt; simp [hroot]
         rw [refsAt_of_docAt this]; unfold File.refs; simp [hr]
-      exact (hW ⟨none, none⟩ (none, 0) inp.rootFile.tops St.init (Inv.init inp) ⟨hl, hl, hl⟩ hk).1
-    · exact Inv.init inp
+      exact (hW ⟨none, none⟩ (none, 0) inp.rootFile.tops st0 h0 ⟨hl, hl, hl.toU⟩ hk).1
+    · exact h0
+
+/-- the invariant holds of the final state of every entry point on a fresh loader -/
+theorem load_inv (inp : Input) (fuel : Nat) : Inv inp (load inp fuel).1 :=
+  loadFrom_inv inp fuel St.init (Inv.init inp)
+
+/-! ### histories: the invariant across the loads of one loader -/
+
+/-- the located root's file sits in the store at its location: a later load finds the same content there -/
+def RootStored (inp : Input) : Prop := ∀ u, inp.root = some u → assoc u inp.store = some inp.rootFile
+
+/-- the loads of a history share one file universe -/
+def GoodHist (store : List (Url × File)) (steps : List Input) : Prop :=
+  ∀ inp ∈ steps, inp.store = store ∧ RootStored inp
+
+def refsS (store : List (Url × File)) (u : Url) : List Ref :=
+  match assoc u store with
+  | some f => f.refs
+  | none => []
+
+/-- what the invariant leaves behind for the next load, stated without reference to a particular load -/
+def CarryOK (store : List (Url × File)) (hist : List Url) (st : St) : Prop :=
+  st.log = [] ∧ st.foreign = false ∧
+  ∀ kv ∈ st.marks, ∃ u, kv.2.1.1 = some u ∧ u ∈ hist ∧ u ∈ store.map (·.1) ∧ ∀ r ∈ refsList kv.2.2, r ∈ refsS store u
+
+theorem refsAt_stored {inp : Input} (hs : RootStored inp) (u : Url) : refsAt inp (some u) = refsS inp.store u := by
+  have hd : docAt inp (some u) = assoc u inp.store := by
+    unfold docAt
+    split
+    · next h => rw [hs u h.symm]
+    · rfl
+  unfold refsAt refsS
+  rw [hd]
+  cases assoc u inp.store <;> rfl
+
+theorem CarryOK.init (store : List (Url × File)) : CarryOK store [] St.init := by
+  refine ⟨rfl, rfl, ?_⟩
+  intro kv h; simp [St.init] at h
+
+/-- a load may start from what the earlier loads left behind -/
+theorem CarryOK.start {store : List (Url × File)} {hist : List Url} {st0 : St} {inp : Input}
+    (h : CarryOK store hist st0) (hst : inp.store = store) (hr : RootStored inp) :
+    Inv { inp with known := hist } st0 := by
+  obtain ⟨hlog, hfor, hm⟩ := h
+  have hr' : RootStored { inp with known := hist } := hr
+  refine ⟨?_, ?_, ?_, fun _ => hfor, fun _ => hfor⟩
+  · intro kv hkv
+    obtain ⟨u, hu, huh, huk, hrefs⟩ := hm kv hkv
+    refine ⟨⟨?_, ?_⟩, ?_⟩
+    · rw [hu]; exact Or.inr (Or.inr ⟨u, huh, rfl⟩)
+    · rw [hu]
+      unfold univ
+      simp only [List.mem_cons, List.mem_map]
+      simp only [List.mem_map] at huk
+      obtain ⟨e, he, hek⟩ := huk
+      exact Or.inr ⟨e, by rw [hst]; exact he, by rw [hek]⟩
+    · intro r hrr
+      rw [hu, refsAt_stored hr' u]
+      show r ∈ refsS inp.store u
+      rw [hst]; exact hrefs r hrr
+  · intro _; rw [hlog]; exact AllJust.nil _
+  · intro _ u hu; rw [hlog] at hu; cases hu
+
+/-- and leaves behind what the next one may start from -/
+theorem Inv.carry {store : List (Url × File)} {inp : Input} {st : St}
+    (h : Inv inp st) (hst : inp.store = store) (hr : RootStored inp) :
+    CarryOK store (inp.known ++ loadedBy inp st) (carry st) := by
+  refine ⟨rfl, rfl, ?_⟩
+  intro kv hkv
+  simp only [KinModel.Reads.carry, List.mem_filter, Bool.and_eq_true] at hkv
+  obtain ⟨hmem, _, hsome⟩ := hkv
+  obtain ⟨⟨hl, hu⟩, hk⟩ := h.marks kv hmem
+  cases hv : kv.2.1.1 with
+  | none => rw [hv] at hsome; cases hsome
+  | some u =>
+    rw [hv] at hl hu hk
+    refine ⟨u, rfl, ?_, ?_, ?_⟩
+    · unfold loadedBy
+      rcases hl with e | ⟨x, hx, e⟩ | ⟨x, hx, e⟩
+      · rw [← e]; simp
+      · cases e; simp [hx]
+      · cases e; simp [hx]
+    · unfold univ at hu
+      rcases List.mem_cons.mp hu with e | e
+      · have := assoc_key_mem (hr u e.symm)
+        rw [hst] at this; exact this
+      · simp only [List.mem_map] at e ⊢
+        obtain ⟨x, hx, hxe⟩ := e
+        cases hxe
+        exact ⟨x, by rw [← hst]; exact hx, rfl⟩
+    · intro r hrr
+      have := hk r hrr
+      rw [refsAt_stored hr u, hst] at this
+      exact this
+
+/-- the invariant holds at the end of every load of a history -/
+theorem runH_inv (store : List (Url × File)) (fuel : Nat) : ∀ (steps : List Input) (hist : List Url) (st0 : St),
+    GoodHist store steps → CarryOK store hist st0 → ∀ e ∈ runH steps fuel hist st0, Inv e.inp e.st
+  | [], _, _, _, _, e, he => by simp [runH] at he
+  | inp :: rest, hist, st0, hg, hc, e, he => by
+    obtain ⟨hst, hr⟩ := hg inp List.mem_cons_self
+    have h0 : Inv { inp with known := hist } st0 := hc.start hst hr
+    have h1 := loadFrom_inv { inp with known := hist } fuel st0 h0
+    simp only [runH, List.mem_cons] at he
+    rcases he with e1 | e2
+    · subst e1; exact h1
+    · have hc' := h1.carry (store := store) hst hr
+      exact runH_inv store fuel rest _ _ (fun i hi => hg i (List.mem_cons_of_mem _ hi)) hc' e e2
 
 end KinModel.Reads
